@@ -7,6 +7,7 @@ import (
 	gofs "io/fs"
 	"os"
 	"path/filepath"
+	"strings"
 
 	"github.com/moby/patternmatcher"
 	"github.com/tonistiigi/fsutil"
@@ -201,6 +202,158 @@ func run1101(in Sx) Sx {
 	return L(L(out...), verdict)
 }
 
+// c11NearPrefixList: a pattern list on the boundary of filter.go's "prefix-only" classification
+// (NewFilterFS onlyPrefixIncludes / onlyPrefixExcludeExceptions, which arm the SkipDir shortcuts of
+// filterFS.Walk): wildcard-free prefixes (literal, L/*, L/**) plus ONE pattern whose tail is a stack
+// of two or more trailing globs below a directory of the view (L/*/**, L/**/*, L/*/*, L/**/**,
+// L/*/**/*, also with empty L): patternWithoutTrailingGlob must strip exactly one of them.
+// side 'i': include list, the stacked pattern is an inclusion; side 'e': exclude list = something
+// covering L plus the stacked pattern as an exception ('!').
+func c11NearPrefixList(r *Rng, paths []string, side byte) []string {
+	base := ""
+	if len(paths) > 0 {
+		cs := splitPath(Pick(r, paths))
+		for try := 0; try < 4 && len(cs) < 3; try++ { // prefer paths with something two levels below L
+			cs = splitPath(Pick(r, paths))
+		}
+		k := 1
+		if len(cs) > 2 {
+			k = 1 + r.Intn(len(cs)-2)
+		}
+		if len(cs) > 1 || r.Chance(70) {
+			base = strings.Join(cs[:k], "/") + "/"
+		}
+	}
+	stacked := base + Pick(r, []string{"*/**", "*/**", "*/**", "**/*", "*/*", "**/**", "*/**/*"})
+	var out []string
+	if side == 'e' {
+		cover := strings.TrimSuffix(base, "/")
+		if cover == "" || r.Chance(30) {
+			cover = Pick(r, []string{"*", "**"})
+			if len(paths) > 0 && r.Bool() {
+				cover = splitPath(Pick(r, paths))[0]
+			}
+		}
+		out = append(out, cover, "!"+stacked)
+	} else {
+		out = append(out, stacked)
+	}
+	for n := r.Intn(3); n > 0; n-- {
+		q, _ := genPrefixPattern(r, paths)
+		if side == 'e' && r.Bool() {
+			q = "!" + q
+		}
+		if validPattern(q) {
+			if r.Bool() {
+				out = append(out, q)
+			} else {
+				out = append([]string{q}, out...)
+			}
+		}
+	}
+	return out
+}
+
+// c11Plain: the entries hardlinkFilter.Walk and the Hardlinks validator look at: everything that is
+// neither a directory nor a symlink (regular files, FIFOs, devices, sockets). mkstat gives a Linkname
+// to every such entry with Nlink > 1 whose inode was seen before.
+func c11Plain(m uint32) bool {
+	return os.FileMode(m)&(os.ModeDir|os.ModeSymlink) == 0
+}
+
+// number of link members that are not regular files (FIFO / device names of one inode)
+func c11SpecialLinks(v []*MNode) int {
+	n := 0
+	for _, st := range WalkEntries(v) {
+		if st.Linkname != "" && c11Plain(st.Mode) && os.FileMode(st.Mode)&os.ModeType != 0 {
+			n++
+		}
+	}
+	return n
+}
+
+// c11LinkGroups turns plain entries into further names of EARLIER plain entries (in walk order), as
+// the disk walker reports several names of one inode: same Stat (type, device numbers, metadata),
+// same content, Linkname = path of the first name. Sources are preferably non-regular inodes (FIFO,
+// char/block device). A link never names a link, an entry that is named stays a source
+// (Hardlinks.wf_links). Some symlinks get a target that is literally the path of a plain entry:
+// symlinks carry their target in Linkname and must pass through untouched.
+func c11LinkGroups(r *Rng, v []*MNode, pct int) {
+	var plain, syms []*MNode
+	paths := map[*MNode]string{}
+	var walk func(dir string, ns []*MNode)
+	walk = func(dir string, ns []*MNode) {
+		for _, k := range ns {
+			p := k.Name
+			if dir != "" {
+				p = dir + "/" + k.Name
+			}
+			paths[k] = p
+			if c11Plain(k.Stat.Mode) {
+				plain = append(plain, k)
+			} else if os.FileMode(k.Stat.Mode)&os.ModeSymlink != 0 {
+				syms = append(syms, k)
+			}
+			walk(p, k.Kids)
+		}
+	}
+	walk("", v)
+	named := map[string]bool{}
+	for _, k := range plain {
+		if k.Stat.Linkname != "" {
+			named[k.Stat.Linkname] = true
+		}
+	}
+	// make sure non-regular inodes exist: turn an unlinked regular file into a FIFO / device
+	if len(plain) >= 2 && r.Chance(60) {
+		k := plain[r.Intn(len(plain)-1)]
+		if k.Stat.Linkname == "" && !named[paths[k]] && os.FileMode(k.Stat.Mode)&os.ModeType == 0 {
+			k.Content, k.Stat.Size, k.Stat.Xattrs = nil, 0, nil
+			switch r.Intn(3) {
+			case 0:
+				k.Stat.Mode = uint32(os.ModeNamedPipe | 0644)
+			case 1:
+				k.Stat.Mode = uint32(os.ModeDevice|os.ModeCharDevice) | 0600
+				k.Stat.Devmajor, k.Stat.Devminor = int64(1+r.Intn(5)), int64(r.Intn(300))
+			default:
+				k.Stat.Mode = uint32(os.ModeDevice) | 0660
+				k.Stat.Devmajor, k.Stat.Devminor = int64(7+r.Intn(3)), int64(r.Intn(5))
+			}
+		}
+	}
+	for j := 1; j < len(plain); j++ {
+		if plain[j].Stat.Linkname != "" || named[paths[plain[j]]] || !r.Chance(pct) {
+			continue
+		}
+		var srcs, special []*MNode
+		for _, s := range plain[:j] {
+			if s.Stat.Linkname == "" {
+				srcs = append(srcs, s)
+				if os.FileMode(s.Stat.Mode)&os.ModeType != 0 {
+					special = append(special, s)
+				}
+			}
+		}
+		if len(srcs) == 0 {
+			continue
+		}
+		src := Pick(r, srcs)
+		if len(special) > 0 && r.Chance(70) {
+			src = Pick(r, special)
+		}
+		plain[j].Stat = src.Stat.CloneVT()
+		plain[j].Content = src.Content
+		plain[j].Stat.Linkname = paths[src]
+		named[paths[src]] = true
+	}
+	for _, k := range syms {
+		if len(plain) > 0 && r.Chance(25) {
+			k.Stat.Linkname = paths[Pick(r, plain)]
+			k.Stat.Size = int64(len(k.Stat.Linkname))
+		}
+	}
+}
+
 // dropNodes removes random nodes (files, and whole directories) from a view: what filters do.
 func dropNodes(r *Rng, ns []*MNode, pct int) ([]*MNode, int) {
 	var out []*MNode
@@ -226,36 +379,10 @@ func genC11(g *Gen) {
 	small := []string{"a", "b", "ab", "a-b", "c", "d", "e"}
 	for i := 0; i < n; i++ {
 		r := g.Rng
-		o := TreeOpts{MaxEntries: 4 + r.Intn(12), MaxDepth: 3, Names: small, Types: r.Chance(30), HardLinks: true}
+		o := TreeOpts{MaxEntries: 4 + r.Intn(12), MaxDepth: 3, Names: small, Types: r.Chance(50), HardLinks: true}
 		v := GenView(r, o)
-		if r.Chance(50) { // more link groups: relink extra files to existing sources
-			var files []*MNode
-			var walk func(dir string, ns []*MNode)
-			paths := map[*MNode]string{}
-			walk = func(dir string, ns []*MNode) {
-				for _, k := range ns {
-					p := k.Name
-					if dir != "" {
-						p = dir + "/" + k.Name
-					}
-					paths[k] = p
-					if os.FileMode(k.Stat.Mode)&os.ModeType == 0 {
-						files = append(files, k)
-					}
-					walk(p, k.Kids)
-				}
-			}
-			walk("", v)
-			for j := 1; j < len(files); j++ {
-				if files[j].Stat.Linkname == "" && r.Chance(40) {
-					src := files[r.Intn(j)]
-					if src.Stat.Linkname == "" {
-						files[j].Stat = src.Stat.CloneVT()
-						files[j].Content = src.Content
-						files[j].Stat.Linkname = paths[src]
-					}
-				}
-			}
+		if r.Chance(60) { // more link groups, of every inode type that can have several names
+			c11LinkGroups(r, v, 40)
 		}
 		links := 0
 		for _, st := range WalkEntries(v) {
@@ -271,6 +398,9 @@ func genC11(g *Gen) {
 				cls = "links+dropped"
 			}
 		}
+		if c11SpecialLinks(v) > 0 {
+			cls += "+nonregular-group"
+		}
 		g.Emit(0x1101, L(ViewSx(filtered)), links > 0 && dropped > 0, cls)
 	}
 
@@ -280,24 +410,57 @@ func genC11(g *Gen) {
 	m := g.Vol(600, 8000)
 	for i := 0; i < m; i++ {
 		r := g.Rng
-		o := TreeOpts{MaxEntries: 4 + r.Intn(12), MaxDepth: 3, Names: small, Types: r.Chance(30), HardLinks: true, Owners: true}
+		o := TreeOpts{MaxEntries: 4 + r.Intn(12), MaxDepth: 3, Names: small, Types: r.Chance(40), HardLinks: true, Owners: true}
 		v := GenView(r, o)
-		var inc, exc []Sx
-		for k := r.Intn(3); k > 0; k-- {
-			inc = append(inc, S(Pick(r, pats)))
+		if r.Chance(50) {
+			c11LinkGroups(r, v, 35)
 		}
-		for k := r.Intn(3); k > 0; k-- {
-			exc = append(exc, S(Pick(r, pats)))
+		var inc, exc []Sx
+		near := i%5 == 4
+		if near { // stacked trailing globs next to wildcard-free prefixes, on a deep view
+			if r.Bool() {
+				v = c10DeepView(r, []string{"a", "b", "ab", "c", "d"})
+				c11LinkGroups(r, v, 35)
+			}
+			ps := viewPaths(v)
+			var raw []string
+			for try := 0; try < 5; try++ {
+				raw = c11NearPrefixList(r, ps, "ie"[i/5%2])
+				if c11ModesAgree(raw, ps) { // otherwise: late-shadow domain (known finding K1)
+					break
+				}
+				raw = nil
+			}
+			for _, q := range raw {
+				if i/5%2 == 0 {
+					inc = append(inc, S(q))
+				} else {
+					exc = append(exc, S(q))
+				}
+			}
+		} else {
+			for k := r.Intn(3); k > 0; k-- {
+				inc = append(inc, S(Pick(r, pats)))
+			}
+			for k := r.Intn(3); k > 0; k-- {
+				exc = append(exc, S(Pick(r, pats)))
+			}
 		}
 		cls := "e2e-unfiltered"
 		if len(inc)+len(exc) > 0 {
 			cls = "e2e-filtered"
+		}
+		if near {
+			cls += "+stacked-trailing-globs"
 		}
 		links := 0
 		for _, st := range WalkEntries(v) {
 			if st.Linkname != "" && os.FileMode(st.Mode)&os.ModeSymlink == 0 {
 				links++
 			}
+		}
+		if c11SpecialLinks(v) > 0 {
+			cls += "+nonregular-group"
 		}
 		g.Emit(0x1102, L(ViewSx(v), L(inc...), L(exc...)), links > 0 && len(inc)+len(exc) > 0, cls)
 	}
@@ -320,7 +483,13 @@ func genC11(g *Gen) {
 		if unsafeNames {         // pruning is observable there, the stream must stay valid all the same
 			names = append(append([]string{}, small[:4]...), c10UnsafeNames...)
 		}
-		v := GenView(r, TreeOpts{MaxEntries: 5 + r.Intn(12), MaxDepth: 4, Names: names, Types: r.Chance(25), HardLinks: true, Owners: r.Chance(30)})
+		v := GenView(r, TreeOpts{MaxEntries: 5 + r.Intn(12), MaxDepth: 4, Names: names, Types: r.Chance(45), HardLinks: true, Owners: r.Chance(30)})
+		if i%6 == 5 && r.Bool() { // deep bushy views for the stacked-trailing-glob class
+			v = c10DeepView(r, names)
+		}
+		if r.Chance(50) {
+			c11LinkGroups(r, v, 35)
+		}
 		paths := viewPaths(v)
 		isDir := map[string]bool{}
 		links := 0
@@ -331,10 +500,17 @@ func genC11(g *Gen) {
 			}
 		}
 		var inc, exc []string
-		switch i % 4 {
-		case 0:
+		near := i%6 == 5
+		switch {
+		case near && i/6%2 == 0:
+			inc = c11NearPrefixList(r, paths, 'i')
+			classes["stacked-trailing-globs"]++
+		case near:
+			exc = c11NearPrefixList(r, paths, 'e')
+			classes["!stacked-trailing-globs"]++
+		case i%4 == 0:
 			inc = genPatternList(r, paths, v, classes, 1)
-		case 1:
+		case i%4 == 1:
 			exc = genPatternList(r, paths, v, classes, 2)
 		default:
 			inc = genPatternList(r, paths, v, classes, 0)
@@ -352,6 +528,9 @@ func genC11(g *Gen) {
 		}
 		mt := L()
 		cls := "wire"
+		if near {
+			cls += "+stacked-trailing-globs"
+		}
 		if unsafeNames {
 			cls += "+unsafe-names"
 		}
@@ -363,6 +542,9 @@ func genC11(g *Gen) {
 		}
 		if links > 0 {
 			cls += "+links"
+		}
+		if c11SpecialLinks(v) > 0 {
+			cls += "+nonregular-group"
 		}
 		if len(inc)+len(exc) == 0 {
 			cls += "+nopatterns"
